@@ -732,4 +732,46 @@ theorem run_inv (cfg : Config) (db : DB R) (ops : List (Op R)) (hwf : ∀ op ∈
     exact ih _ (fun o ho => hwf o (List.mem_cons_of_mem _ ho))
       (step_inv cfg db op (hwf op List.mem_cons_self) hi)
 
+/-- while a pair stays over-committed along a history, its usage never grows -/
+theorem run_usage_le (cfg : Config) (db : DB R) (ops : List (Op R)) (hwf : ∀ op ∈ ops, op.WF)
+    (hi : C01Inv db) {rp rc : Nat}
+    (hoc : ∀ k < ops.length, OverCommitted (run cfg db (ops.take (k + 1))).1 rp rc) :
+    (run cfg db ops).1.usage rp rc ≤ db.usage rp rc := by
+  induction ops generalizing db with
+  | nil => exact Int.le_refl _
+  | cons op ops ih =>
+    have hwf1 := hwf op List.mem_cons_self
+    have h0 : OverCommitted (step cfg db op).1 rp rc := hoc 0 (by simp)
+    have hle := step_usage_le cfg db op hi.stateOK hwf1 h0
+    have ih' := ih (step cfg db op).1 (fun o ho => hwf o (List.mem_cons_of_mem _ ho))
+      (step_inv cfg db op hwf1 hi) (fun k hk => by
+        have := hoc (k + 1) (by simp; omega)
+        rwa [List.take_succ_cons, run_cons_fst] at this)
+    rw [run_cons_fst]
+    omega
+
+/-- a pair that is over-committed at the end of a history but not at its start became so by a
+request that changes the inventory of that provider -/
+theorem run_oc_cause [MonoCapOps R] (cfg : Config) (db : DB R) (ops : List (Op R))
+    (hwf : ∀ op ∈ ops, op.WF) (hi : C01Inv db) {rp rc : Nat} (h0 : ¬ OverCommitted db rp rc)
+    (h1 : OverCommitted (run cfg db ops).1 rp rc) :
+    ∃ pre op post, ops = pre ++ op :: post ∧
+      ¬ OverCommitted (run cfg db pre).1 rp rc ∧
+      OverCommitted (step cfg (run cfg db pre).1 op).1 rp rc ∧
+      op.changesInventoryOf (run cfg db pre).1 rp := by
+  induction ops generalizing db with
+  | nil => exact absurd h1 h0
+  | cons op ops ih =>
+    have hwf1 := hwf op List.mem_cons_self
+    by_cases hs : OverCommitted (step cfg db op).1 rp rc
+    · refine ⟨[], op, ops, rfl, h0, hs, ?_⟩
+      false_or_by_contra
+      rename_i hn
+      exact h0 (step_oc_back cfg db op hi.stateOK hwf1 hs hn)
+    · obtain ⟨pre, o, post, e, a, b, c⟩ := ih (step cfg db op).1
+        (fun o ho => hwf o (List.mem_cons_of_mem _ ho)) (step_inv cfg db op hwf1 hi) hs
+        (by rwa [run_cons_fst] at h1)
+      exact ⟨op :: pre, o, post, by rw [e]; rfl, by rwa [run_cons_fst], by rwa [run_cons_fst],
+        by rwa [run_cons_fst]⟩
+
 end Placement
